@@ -345,6 +345,39 @@ impl Srv {
                     }
                 }
             }
+            "grep" => {
+                // byte search of every file under the data directory for clear-text secrets
+                let mut needles: Vec<String> = op.get("needles").and_then(|v| v.as_array()).map(|a| a.iter().map(|x| x.as_str().unwrap().to_string()).collect()).unwrap_or_default();
+                if op.get("tokens").and_then(|v| v.as_bool()).unwrap_or(false) {
+                    needles.extend(self.tokens.values().cloned());
+                }
+                let mut hits = vec![];
+                let mut files = 0u64;
+                let mut bytes = 0u64;
+                fn walk2(p: &Path, out: &mut Vec<PathBuf>) {
+                    if let Ok(rd) = std::fs::read_dir(p) {
+                        for e in rd.flatten() {
+                            let path = e.path();
+                            if path.is_dir() { walk2(&path, out); } else { out.push(path); }
+                        }
+                    }
+                }
+                let mut all = vec![];
+                walk2(&self.dir, &mut all);
+                for f in all {
+                    if let Ok(data) = std::fs::read(&f) {
+                        files += 1;
+                        bytes += data.len() as u64;
+                        for n in &needles {
+                            let nb = n.as_bytes();
+                            if !nb.is_empty() && data.windows(nb.len()).any(|w| w == nb) {
+                                hits.push(json!([n, f.strip_prefix(&self.dir).unwrap().to_string_lossy()]));
+                            }
+                        }
+                    }
+                }
+                json!({"r": "ok", "hits": hits, "files": files, "bytes": bytes, "needles": needles.len()})
+            }
             "connect" => {
                 self.client(&cname).await;
                 json!({"r": "ok"})
@@ -608,7 +641,8 @@ impl Srv {
                 };
                 match c.create_personal_access_token(s(op, "name"), exp).await {
                     Ok(t) => {
-                        self.tokens.insert(format!("{}", s(op, "name")), t.token.clone());
+                        let key = op.get("store_as").and_then(|v| v.as_str()).unwrap_or(s(op, "name")).to_string();
+                        self.tokens.insert(key, t.token.clone());
                         json!({"r": "ok", "token": t.token})
                     }
                     Err(e) => err_json(&e),
